@@ -103,7 +103,7 @@ func invoke(recv any, helper avfs.VFS, idm avfs.IdentityMgr, o opDesc) (out outc
 			var v reflect.Value
 
 			switch a.K {
-			case "str", "path":
+			case "str", "path", "pstr":
 				v = reflect.ValueOf(a.S)
 			case "int", "i64", "u8", "mode", "flag", "feat":
 				v = reflect.New(pt).Elem()
